@@ -607,18 +607,23 @@ Proof.
     split; [exact E2|split; congruence].
 Qed.
 
+Lemma enter_as_set es ts s : ssorted es -> bounded n es ->
+  fold_left (p_enter_one pv c iq eq es ts) (seq 0 (pn c)) s =
+  fold_left (fun s i => if negb (mem i (p_cfg s)) && negb (is_pseudo (ptype c i)) then p_enter_body ts s i else s) es s.
+Proof.
+  intros Hes Heb.
+  rewrite <- (fold_seq_as_set es (pn c) (fun s i => negb (mem i (p_cfg s)) && negb (is_pseudo (ptype c i))) (p_enter_body ts) s Hes Heb).
+  apply fold_ext. intros s' i _. apply p_enter_one_form.
+Qed.
+
 Lemma enter_phase es ts s a : ssorted es -> bounded n es -> ssorted ts -> bounded nt ts ->
   ecorr s a ->
   let s' := fold_left (p_enter_one pv c iq eq es ts) (seq 0 (pn c)) s in
   p_full s' = false ->
   ecorr s' (fold_left (fenter_one ex_fixed c ts) es a) /\ p_hist s' = p_hist s /\ p_spont s' = p_spont s.
 Proof.
-  intros Hes Heb Hts Htb E. cbv zeta.
-  assert (Eq : fold_left (p_enter_one pv c iq eq es ts) (seq 0 (pn c)) s =
-               fold_left (fun s i => if negb (mem i (p_cfg s)) && negb (is_pseudo (ptype c i)) then p_enter_body ts s i else s) es s).
-  { rewrite <- (fold_seq_as_set es (pn c) (fun s i => negb (mem i (p_cfg s)) && negb (is_pseudo (ptype c i))) (p_enter_body ts) s Hes Heb).
-    apply fold_ext. intros s' i _. apply p_enter_one_form. }
-  rewrite Eq. apply enter_fold_sim; auto. intros i Hi. now apply (bounded_In n es).
+  intros Hes Heb Hts Htb E. cbv zeta. rewrite (enter_as_set es ts s Hes Heb).
+  apply enter_fold_sim; auto. intros i Hi. now apply (bounded_In n es).
 Qed.
 
 (* the phases as a whole never clear the "queue full" flag *)
